@@ -11,7 +11,8 @@ and `deepClone`, quirks included:
 * a resolved service is written back into the map it came from (`services[name] = merged`) only
   on a same-file step; on a cross-file step the write goes to the freshly loaded (discarded) map;
 * a `null` base leaves the extending service untouched (its `extends` attribute stays);
-* `extends: {file: f}` without a string `service`, or with a non-string `file`, panics;
+* `extends: {file: f}` without a string `service`, or with a non-string `file`, is an error
+  (it was a panic before the repair `fix: extends with a non-string service or file …`);
   an `extends` value that is neither a string nor a mapping behaves like `extends: ""`.
 
 Parameters (an `Env`): the name of the main file, the *file system* `fs` — for every reference
@@ -74,8 +75,8 @@ def parseExtends : Val → Out (String × Option String)
       | none => .ok (r, none)
       | some .null => .ok (r, none)
       | some (.str f) => .ok (r, some f)
-      | some _ => .panic panicSite          -- file.(string)
-    | _ => .panic panicSite                  -- v["service"].(string)
+      | some _ => .err "extendsFileNotString"      -- "services.%s.extends.file must be a string"
+    | _ => .err "extendsServiceNotString"          -- "services.%s.extends.service must be a string"
   | _ => .ok ("", none)
 
 /-- `getExtendsBaseFromFile` (local resource loader) -/
